@@ -206,6 +206,11 @@ Holds(e, name) ==
             FaceFieldOf(g, o.S.grad)[id] =
                RMul(RDiv(cf.K, cf.L), FaceFieldOf(g, o.grad)[id])
     [] name = "C17_solution" -> C17_VecScaled(FieldOf(g, o.r_solve), FieldOf(g, o.S.r_solve), cf.K)
+    [] name = "C17_Decades" ->      \* every entry ratio is 10^(l*kL + t*kT + k*kK) (9999 = not a power of ten)
+         \A nm \in DOMAIN o.decades :
+            LET dm == OutputDim(g.cls, nm)
+                want == dm[1] * cf.dec[1] + dm[2] * cf.dec[2] + dm[3] * cf.dec[3]
+            IN  \A j \in 1..Len(o.decades[nm]) : o.decades[nm][j] = want
     [] name = "C17_LinearDiff" -> C17_MatLinear(MatOf(o.Mdiff), MatOf(o.Lin.Mdiff2), MatOf(o.Lin.Mdiff12), cf.lam, cf.mu)
     [] name = "C17_LinearConv" -> C17_MatLinear(MatOf(o.Mconv), MatOf(o.Lin.Mconv2), MatOf(o.Lin.Mconv12), cf.lam, cf.mu)
     [] name = "C17_LinearUp"   -> C17_MatLinear(MatOf(o.Mupalt), MatOf(o.Lin.Mup2), MatOf(o.Lin.Mup12), cf.lam, cf.mu)
